@@ -74,6 +74,8 @@ type c19World struct {
 	sxs    []uint64 // stable-mint programs (ids), c19s_test.go
 	ranged bool
 	nacct  map[string]int
+	// masterlist cases: the quote coin of the pairs is unpriced (valuation by the base coin amount)
+	unpricedQuote bool
 }
 
 var c19Watched = []int{1, 2, 3, 4, 5, 6, 9, 11, 12, 13, 14, 15, 16, 21, 22, 23, 80, 81, 90}
@@ -425,6 +427,7 @@ func (w *c19World) opBegin(dt int64) {
 		w.tr.p("farm %d %s", i, w.farmEnv(w.ctx, g))
 		w.tr.p("fobs %d %s", i, w.farmObs(w.ctx, g))
 		if !g.ForSwapFee {
+			w.tr.p("fraw %d %s", i, w.farmRaw(w.ctx, g))
 			// the allocation that would be due
 			if g.IsActive && g.TriggeredCount < g.TotalTriggers && g.DepositAmount.Amount.IsUint64() {
 				var sp []uint64
@@ -978,6 +981,11 @@ func c19MasterList(w *c19World, g *rng) {
 	for _, d := range []string{"ucmdx", "ucmst", "uharbor", "uatom"} {
 		w.opPrice(d, g.pickU(1000000, 2000000, 500000, 12345678), true)
 	}
+	if w.unpricedQuote {
+		// the QUOTE coin of all three pairs (ucmst) has no usable oracle price: every position is valued by its BASE
+		// coin amount; the pools' reserves are 2:1, 10:1 and 1:3 in raw units
+		w.opPrice("ucmst", 0, false)
+	}
 	perm := []uint64{w.fx.pools[0], w.fx.pools[1], w.fx.pools[2]}
 	for i := 2; i > 0; i-- {
 		j := g.intn(i + 1)
@@ -1308,6 +1316,7 @@ func TestC19(t *testing.T) {
 			w.header(ci, "hookerr")
 			c19HookErr(w, g)
 		case ci%10 == 5 || ci%10 == 8:
+			w.unpricedQuote = ci%10 == 8
 			w.header(ci, "masterlist")
 			c19MasterList(w, g)
 		default:
